@@ -627,8 +627,8 @@ def check_C09(tr):
     if tr.hang:
         bad.append("no scheduler progress for 10 s (a thread loops without reaching a scheduling point)")
     has_panic = any(o.panic for o in tr.ops)
-    if tr.stuck() and not has_panic and not (c.is_iter() and c.frozen):
-        bad.append("all runnable threads spin forever (stuck) although nothing panicked")
+    if tr.stuck() and not (c.is_iter() and c.frozen):
+        bad.append("all runnable threads spin forever (stuck)" + (" after a thread's operation panicked" if has_panic else " although nothing panicked"))
     if not c.is_iter():
         # wait-freedom: a pull is its call and exactly one atomic access; never a second access
         for oi in tr.ops:
